@@ -1,7 +1,7 @@
 (* Proofs/StructTop.v -- side conditions on the generated tables (Gen/StructTable.v) and the
    composition of the per-pass theorems. *)
 From TV Require Import Base.I32 Model.Structure Gen.StructTable
-  Proofs.StructBasics Proofs.StructRel Proofs.StructLoop Proofs.StructBreak Proofs.StructUnused Proofs.StructIfElse.
+  Proofs.StructBasics Proofs.StructRel Proofs.StructLoop Proofs.StructBreak Proofs.StructUnused Proofs.StructIfElse Proofs.StructNoCnt.
 Open Scope nat_scope.
 
 (* ---- tie 1: what the theorems need from the current source ---- *)
@@ -270,3 +270,35 @@ Lemma example_ok :
 Proof.
   split; [reflexivity|]. split; [apply well_labelledb_ok; reflexivity|]. split; vm_compute; reflexivity.
 Qed.
+
+(* ---- with count jumps excluded from cond chains (truth commit 9533770) the exclusion is always met ---- *)
+
+Lemma gen_if_cnt : g_if_cnt gen_guards = true.
+Proof. reflexivity. Qed.
+
+Lemma gstructure_no_cnt f : is_flat f = true -> well_labelled f -> no_cnt_chain (gstructure f) = true.
+Proof.
+  intros Hf Hw. rewrite gstructure_eq.
+  destruct (essential_split _ gen_guards_essential) as (Gd & Gt & _).
+  apply structure_no_cnt; auto.
+Qed.
+
+Theorem C07_all_proof :
+  forall f, is_flat f = true -> well_labelled f ->
+  canon_of gen_negcmp false (gstructure f) = canon_of gen_negcmp false f.
+Proof. intros f Hf Hw. apply C07_full_proof; auto. now apply gstructure_no_cnt. Qed.
+
+Theorem referenced_labels_all :
+  forall f, is_flat f = true -> well_labelled f ->
+  forall l, In l (refs (gstructure f)) -> lookup (lenv st0 (gstructure f)) l = lookup (lenv st0 f) l.
+Proof. intros f Hf Hw. apply referenced_labels_keep_position_and_time; auto. now apply gstructure_no_cnt. Qed.
+
+Theorem explicit_time_all :
+  forall f, is_flat f = true -> well_labelled f ->
+  map explicit_time (canon_of gen_negcmp false (gstructure f)) = map explicit_time (canon_of gen_negcmp false f).
+Proof. intros f Hf Hw. now rewrite (C07_all_proof f Hf Hw). Qed.
+
+Theorem item_times_all :
+  forall f, is_flat f = true -> well_labelled f ->
+  map item_time (canon_of gen_negcmp false (gstructure f)) = map item_time (canon_of gen_negcmp false f).
+Proof. intros f Hf Hw. now rewrite (C07_all_proof f Hf Hw). Qed.
